@@ -4,6 +4,7 @@
 //! A kernel that can no longer be found / translated is reported (status.json, stderr) and its
 //! definition is omitted, so the GenEq lemma about it stops compiling; the other kernels are
 //! unaffected.  Exit code: 0 = all kernels translated, 3 = some kernel failed, 2 = usage/IO error.
+mod impls;
 mod panics;
 mod specs;
 mod trans;
@@ -519,5 +520,7 @@ fn main() {
     write_if_changed(format!("{}/status.json", outdir), format!("[\n{}\n]\n", status.join(",\n")));
     // panic-site inventory of the whole non-test source (docs/RS2V.md "Panic sites")
     write_if_changed(format!("{}/panic_sites.json", outdir), panics::inventory(repo, &table));
+    // impl inventory: inherent methods, trait impl blocks, crate traits (docs/RS2V.md "Impl inventory")
+    write_if_changed(format!("{}/impl_inventory.json", outdir), impls::inventory(repo));
     std::process::exit(if failed > 0 { 3 } else { 0 });
 }
